@@ -380,15 +380,5 @@ def snapshot_blob(ctx: Ctx, py: PyProgram, rs: RustProgram) -> None:
     sub-registers is not the identity (writing IL clears IH)."""
     from .c16 import layout
     layout(ctx, py, rs)
-    fn = rs.fn(isa.LIB_RS, "apply_registers")
-    n = 0
-    loops = [l for l in walk(fn.body) if l.get("k") == "for" and "SNAPSHOT_REGISTER_LAYOUT" in expr_text(l["iter"])]
-    ctx.need(len(loops) == 1, "apply_registers: loop over SNAPSHOT_REGISTER_LAYOUT not found")
-    for c in walk(loops[0]["body"]):
-        if c.get("k") == "mcall" and c["m"] == "set_reg" and c["args"]:
-            n += 1
-            a0 = c["args"][0]
-            if a0.get("k") == "path" and a0["p"].startswith("RegName::"):
-                ctx.violation("C08.4/snapshot-apply", key_of(fn.file, fn.qual, "layout register restored through a named sub-register"),
-                              f"apply_registers writes `{expr_text(c)[:70]}` inside the layout loop: restoring a 16-bit pair through its halves is not the identity on the register file (a write to IL clears IH, so I comes back without its high byte)", f"{fn.file}:{c['ln']}")
-    ctx.instance("C08.4/rust-snapshot-apply", "set_reg calls of apply_registers' layout loop write the register named by the layout, whole", n, 1)
+    from .c16 import rust_apply_whole
+    rust_apply_whole(ctx, rs, "C08.4/snapshot-apply", "C08.4/rust-snapshot-apply")
